@@ -166,7 +166,7 @@ func checkC11(r *evid.Run) {
 	if !thorough {
 		cfgs = append(cfgs, "MC_Pipe_cancel_enc.cfg", "MC_Pipe_reader_enc.cfg")
 	} else {
-		cfgs = append(cfgs, "MC_Pipe_live_walk.cfg", "MC_Pipe_live_cancel.cfg")
+		cfgs = append(cfgs, "MC_Pipe_live_walk.cfg", "MC_Pipe_live_cancel.cfg", "MC_Pipe_live_backpressure.cfg")
 		cfgs = append(cfgs, "MC_Pipe_faults_text_w3.cfg", "MC_Pipe_faults_mkdir_w3.cfg") // three workers per stage
 	}
 	runPipeModels(r, cfgs, 4, 30*time.Minute)
